@@ -234,6 +234,7 @@ class ListTree:
                  if part]
         for entry in self.list():
             if not entry.exists and entry.name != 'INBOX' \
+                    and entry.name.isascii() \
                     and entry.name.upper() == 'INBOX':
                 continue  # a spelling of INBOX, which is listed by itself
             elif entry.name == 'INBOX':
